@@ -36,6 +36,23 @@ class Opaque:
         return self.ids[k]
 
 
+class Content(Opaque):
+    """Renders Beancount values (inventories, positions, amounts, costs, metadata dicts) by content, not identity:
+    for comparing implementation results with implementation results."""
+    def text_of(self, v):
+        try:
+            from beancount.core import amount, inventory, position
+        except Exception:  # noqa: BLE001
+            return None
+        if isinstance(v, inventory.Inventory):
+            return 'Inv<' + '; '.join(sorted(str(p) for p in v)) + '>'
+        if isinstance(v, (position.Position, amount.Amount, position.Cost)):
+            return type(v).__name__ + '<' + str(v) + '>'
+        if isinstance(v, dict):
+            return 'Dict<' + repr(sorted((str(k), str(x)) for k, x in v.items())) + '>'
+        return None
+
+
 def dec_parts(d):
     sign, digits, exp = d.as_tuple()
     if not isinstance(exp, int):
@@ -97,6 +114,10 @@ def show_value(v, opaque=None):
         return 'R%d,%d,%d' % (v.years, v.months, v.days)
     if opaque is None:
         return 'O%s#?' % type(v).__name__
+    if hasattr(opaque, 'text_of'):
+        t = opaque.text_of(v)
+        if t is not None:
+            return t
     return 'O%s#%d' % (type(v).__name__, opaque.id_of(v))
 
 
